@@ -481,6 +481,8 @@ func (o *ProjectOptions) prepare(ctx context.Context) (*types.ConfigDetails, err
 	if err != nil {
 		return configDetails, err
 	}
+	// the project environment is what the files are interpolated with, whichever the entry point
+	configDetails.Environment = o.Environment
 
 	o.loadOptions = append(o.loadOptions,
 		withNamePrecedenceLoad(defaultDir, o),
